@@ -11,7 +11,7 @@ import (
 )
 
 func init() {
-	register("C07", "Structural clauses of the receiver's side of the wire protocol, decided on all paths of the receive loop and the request callback: the receiver's id counter advances by one on every loop iteration that handled a STAT carrying a stat and on no other (so it equals the sender's running index whatever the stream contains), ids are registered pre-increment only for selected regular files, a request is issued exactly once per path under one lock region with the pipe registered before REQ is sent, DATA payloads are written synchronously into non-retaining sinks (no-retain analysis over all VTA targets), FIN is sent only after diff and writers completed, and end of stream before FIN is an error. The equality that decides whether an existing entry is requested again compares each stat field of one side with the same field of the other side. When the destination already has an entry at a path, what is received is written into a new entry that is renamed into place, never into the old file (whose tail would survive). Does not decide behaviour for every chunking/interleaving nor that the requested set is exactly the needed set.", runC07)
+	register("C07", "Structural clauses of the receiver's side of the wire protocol, decided on all paths of the receive loop and the request callback: the receiver's id counter advances by one on every loop iteration that handled a STAT carrying a stat and on no other (so it equals the sender's running index whatever the stream contains), ids are registered pre-increment only for selected regular files, a request is issued exactly once per path under one lock region with the pipe registered before REQ is sent, DATA payloads are written synchronously into non-retaining sinks (no-retain analysis over all VTA targets), FIN is sent only after diff and writers completed, and end of stream before FIN is an error. The equality that decides whether an existing entry is requested again compares each stat field of one side with the same field of the other side. Without the metadata-only option no announced entry is passed over (every STAT carrying a stat reaches the differ before the next packet is read). When the destination already has an entry at a path, what is received is written into a new entry that is renamed into place, never into the old file (whose tail would survive). Does not decide behaviour for every chunking/interleaving nor that the requested set is exactly the needed set.", runC07)
 }
 
 func runC07(c *Ctx) {
@@ -41,6 +41,76 @@ func runC07(c *Ctx) {
 	// field of one side with the same field of the other (shared with C02)
 	r02_1(c, "R07.11")
 	r07_12(c, "R07.12")
+	r07_13(c, "R07.13")
+}
+
+// R07.13: without the metadata-only option nothing announced is passed over.
+//
+// The receive loop may leave an announced entry out of the stream it hands to
+// the differ only in metadata-only mode (the listing file's own name, entries
+// the selector rejected). With the option unset, every STAT that carries a
+// stat is forwarded - or ends the loop with an error - before the next packet
+// is read: what is not forwarded is never requested, and on a re-sync the
+// destination's copy is deleted as stale, with Receive reporting success.
+func r07_13(c *Ctx, rule string) {
+	c.R.Rule(rule, "receive loop: with ReceiveOpt.MetadataOnly unset, every path from a STAT carrying a stat to the next RecvMsg passes the hand-over of that entry to the differ's walker (dynamicWalker.update)")
+	loop := recvLoop(c, rule)
+	if loop == nil {
+		return
+	}
+	nilTest := statNilTest(c, loop)
+	recv := mainRecv(c, loop)
+	if nilTest == nil || recv == nil {
+		c.R.Missing(rule, "test `p.Stat == nil` / main-loop RecvMsg in the receive loop")
+		return
+	}
+	withStat := nilTest.Block().Succs[1]
+	if len(withStat.Instrs) == 0 {
+		c.R.Undecided(rule, c.name(loop)+"/forwarded-without-option", c.pos(nilTest), "empty successor block")
+		return
+	}
+	x := c.explorer(loop)
+	isOptionSet := func(v ssa.Value) bool {
+		bo, ok := v.(*ssa.BinOp)
+		if !ok || bo.Op != token.NEQ {
+			return false
+		}
+		k, isK := bo.Y.(*ssa.Const)
+		return isK && k.IsNil() && isFieldLoad(bo.X, "fsutil.receiver.metadataOnly")
+	}
+	as := map[string]bool{}
+	for _, k := range c.trueCellKeys(loop, x, isOptionSet) {
+		as[k] = false
+	}
+	eng.Instrs(loop, func(in ssa.Instruction) {
+		if bo, ok := in.(*ssa.BinOp); ok && (bo.Op == token.NEQ || bo.Op == token.EQL) {
+			if k, isK := bo.Y.(*ssa.Const); isK && k.IsNil() && isFieldLoad(bo.X, "fsutil.receiver.metadataOnly") {
+				as[x.RegKey(bo)] = bo.Op == token.EQL
+			}
+		}
+	})
+	con := c.name(loop) + "/forwarded-without-option"
+	if len(as) == 0 {
+		c.R.OK(rule, con, c.pos(nilTest), "the loop does not read the metadata-only option in a shape this rule interprets: not decided")
+		return
+	}
+	ex := c.explorer(loop)
+	ex.From = withStat.Instrs[0]
+	ex.Assume = as
+	ex.Barrier = func(in ssa.Instruction, st *eng.State) bool {
+		return c.P.IsCallTo(in, "fsutil.(*dynamicWalker).update")
+	}
+	ex.Target = func(in ssa.Instruction, st *eng.State) bool { return in == ssa.Instruction(recv) }
+	ex.StopAtTarget = true
+	hits := ex.Run()
+	switch {
+	case ex.Exhausted:
+		c.R.Undecided(rule, con, c.pos(nilTest), "state limit")
+	case len(hits) > 0:
+		c.R.Fail(rule, con, c.pos(hits[0].Instr), "with the metadata-only option unset an announced entry can be passed over (the loop reads the next packet without having handed the entry to the differ): it is never requested, an existing copy is deleted as stale on the next sync, and Receive succeeds; path "+eng.BlockTrace(loop, hits[0].Trace))
+	default:
+		c.R.OK(rule, con, c.pos(nilTest), "without the option every STAT carrying a stat is forwarded (or fatal) before the next receive")
+	}
 }
 
 // R07.12: what is stored under a path is what was received for it.
